@@ -4,7 +4,6 @@
   (`Extracted/CallOrder.lean`); positional evidence supporting the dynamic oracle.
 -/
 import AgeModel.Extracted.CallOrder
-import Proofs.GoTieFormat
 namespace AgeModel
 namespace Tie.C03
 
@@ -13,17 +12,9 @@ theorem mac_check_precedes_reader : Extracted.macCheckPrecedesReader = true := b
 theorem decrypt_order : Extracted.decryptOrder.map (·.1) = ["hmac.Equal", "stream.NewReader"] := by decide
 
 
-/-- The code itself (DESIGN.md §5.3): `format.Parse`, TRANSLATED from the source on every run,
-    returns the model's header and unread remainder for every input (given that
-    `format.DecodeString` is the model's `decodeString`) — so `mac_covers_received_bytes`
-    (the MAC input is exactly the received header bytes) is about the parser in the source. -/
-theorem parse_tie (D : Bytes → Go.M (Bytes × Option Go.Err)) (eD : Go.Err) (hD : GoTie.DecodeIsModel D eD)
-    (input : Bytes) :
-    ∃ res, Extracted.format_Parse D input = .ok res ∧
-      match Format.parse input with
-      | .ok (h, rest) => res = (GoTie.toGoHeader h, rest, none)
-      | .error _ => res.2.2 ≠ none :=
-  GoTie.parse_tie D eD hD input
+/-! (That `format.Parse` as it stands in the source returns the model's header and remainder for every
+    input — which makes `mac_covers_received_bytes` a statement about the source — is `Tie.C07.parse_tie`;
+    it is not repeated here, so that a rewrite of the parser touches C07's obligations only.) -/
 
 end Tie.C03
 end AgeModel
